@@ -27,7 +27,7 @@ from fractions import Fraction
 import numpy as np
 
 from fcv import meshgen, predio
-from fcv.num import f2u, rn64, next_up
+from fcv.num import f2u, u2f, rn64, next_up
 from fcv.predio import NP_DT
 
 FLOATS = ("f64", "f32", "f16")
@@ -61,6 +61,22 @@ def canon_arr(arr: np.ndarray) -> str:
 
 def canon_entries(entries) -> str:
     return ";".join(sorted(entries))
+
+
+def show_val(v: str, is_float=True) -> str:
+    """canonical value -> readable text for complaints"""
+    if v in ("n", "+i", "-i"):
+        return {"n": "nan", "+i": "inf", "-i": "-inf"}[v]
+    try:
+        return repr(u2f(int(v))) if is_float else v
+    except (ValueError, OverflowError):
+        return v
+
+
+def show_arr(canon: str, limit=6) -> str:
+    dt, shape, vals = canon.split("|")
+    vs = [show_val(v, dt in FLOATS) for v in vals.split(",")[:limit] if v != ""]
+    return f"{dt}[{shape}]({', '.join(vs)}{', …' if vals.count(',') >= limit else ''})"
 
 
 def has_nonzero(out: str) -> bool:
@@ -467,7 +483,7 @@ def spec_check_mesh(lref, lsrc, out, rev):
                 for i, (x, y) in enumerate(zip(fr["v"], fs["v"])):
                     o = oracle_f64(x, y)
                     if o != "?" and o != vals[i]:
-                        bad.append(f"common field {key} entry {i}: {vals[i]} but ref-src = {o} (ref={x!r}, src={y!r})")
+                        bad.append(f"common field {key} entry {i}: {show_val(vals[i])} but ref-src = {show_val(o)} (ref={x!r}, src={y!r})")
                         break
             elif fr["dt"] == fs["dt"] and fr["v"] == fs["v"]:
                 if any(v != "0" for v in vals):
@@ -648,7 +664,8 @@ def spec_check_table(lref, lsrc, out):
             for i in range(common):
                 o = oracle_f64(r[name]["v"][i], s[name]["v"][i])
                 if o != "?" and o != vals[i]:
-                    bad.append(f"column {name} row {i}: {vals[i]} but ref-src = {o}")
+                    bad.append(f"column {name} row {i}: {show_val(vals[i])} but ref-src = {show_val(o)} "
+                               f"(ref={r[name]['v'][i]!r}, src={s[name]['v'][i]!r})")
                     break
     return bad
 
@@ -847,7 +864,8 @@ def eval_cli_mesh_cases(ctx, cases, tagsl, workroot):
             if relabel_only and any(v != "0" for v in vals.split(",") if v != ""):
                 bad.append(f"{what}: b = relabel(a), but the written difference is not exactly zero")
             if rep is not None and rep.get("model") != got:
-                bad.append(f"{what}: file holds {got[:200]}, reference minus source on the same entities is {rep.get('model', '')[:200]}")
+                bad.append(f"{what}: file holds {show_arr(got)}, reference minus source on the same entities is "
+                           f"{show_arr(rep['model']) if rep.get('model', 'E').count('|') == 2 else rep.get('model')}")
         ctx.case(("cli-mesh", repr(c)[:400], tuple(e[1] for e in expected)), nontrivial=nz or c.get("relabel_only", False),
                  tags=["cli-mesh"] + tags)
         if bad:
@@ -971,7 +989,7 @@ def eval_cli_csv_cases(ctx, cases, tagsl, workroot):
             line, mini, la, lb = res
             rep = replies[k]; k += 1
             if rep is not None and rep.get("hyp") == "1" and rep.get("model") != mini:
-                bad.append(f"diff CSV holds {mini[:200]}, model of reference minus source: {rep.get('model', '')[:200]}")
+                bad.append(f"diff CSV holds {mini[:300]}, model of reference minus source: {rep.get('model', '')[:300]} (values in units of 2^-1074)")
             bad += spec_check_table(lb, la, mini)
         ctx.case(("cli-csv", c["a"], c["b"]), nontrivial=True, tags=tags)
         if bad:
